@@ -4,6 +4,7 @@ import S3V.Thm.XmlEscape
 import S3V.Thm.XmlRoundtrip
 import S3V.Thm.XmlStrict
 import S3V.Thm.XmlMeaning
+import S3V.Thm.XmlTokenEnc
 import S3V.Gen.XmlSer
 import S3V.Gen.XmlDe
 import S3V.Gen.XmlSmithy
@@ -215,7 +216,7 @@ theorem C13_codec_roundtrip_types (X : Ext) (t : Ty) (hde : (deDef t).isSome = t
 /-- the hand-written `GetBucketLocationOutput` (xml/mod.rs): `Some(constraint)` with a non-empty constraint and
 `None` come back; `Some("")` is written like `None` (not in normal form) -/
 theorem C13_bucket_location_roundtrip (X : Ext) (tag : Bytes) (ns : Option Bytes) (s : Sch) :
-    (∀ b : Bytes, b ≠ [] → utf8Valid (escape b) = true →
+    (∀ b : Bytes, b ≠ [] → utf8Valid b = true →
       decodeDoc X (.location tag) s (encodeDoc (.location tag ns) s (.struct [.one (.str b)])) = .ok (.struct [.one (.str b)])) ∧
     decodeDoc X (.location tag) s (encodeDoc (.location tag ns) s (.struct [.absent])) = .ok (.struct [.absent]) := by
   constructor
@@ -223,12 +224,71 @@ theorem C13_bucket_location_roundtrip (X : Ext) (tag : Bytes) (ns : Option Bytes
     have he : escape b ≠ [] := fun h => hb (escape_eq_nil.mp h)
     have hne : ∀ x : Bytes, x ≠ [] → textEv x = [.text x] := fun x hx => by simp [textEv, hx]
     simp only [decodeDoc, encodeDoc, hne _ he, List.cons_append, List.nil_append, List.length_cons, List.length_nil]
-    simp only [forEach, skipText, if_true, FVal.isAbsent, textOf, decodeStr_escape hv, expectEnd, expectEof]
+    simp only [forEach, skipText, if_true, FVal.isAbsent, textOf, decodeStr_escape (utf8Valid_escape hv), expectEnd,
+      expectEof]
     cases b with
     | nil => exact absurd rfl hb
     | cons c cs => simp
   · simp only [decodeDoc, encodeDoc, List.length_cons, List.length_nil]
     simp [forEach, skipText, FVal.isAbsent, textOf, decodeStr, utf8Valid_nil, unescape, expectEnd, expectEof]
+
+/-! ## bytes: writer and tokeniser -/
+
+/-- **The tokeniser reads back what the writer wrote.** For every well-nested event sequence (`WN`: element names of
+name bytes, at most the `xmlns` attribute, texts non-empty, `<`-free and never adjacent) that begins with a tag,
+`Deserializer` over the written bytes sees exactly the written events — and everything the encoder produces for a
+schema with good element names is such a sequence (next theorem). -/
+theorem C13_tokenize_write (evs : List Ev) (hhead : headNotText evs = true) (h : WN [] evs) :
+    deEvents (tokenize (write evs)) = evs :=
+  tokenize_write evs hhead h
+
+def tagsOk (t : Ty) : Bool :=
+  goodName t.selfTag &&
+  (match serSchema t with | some s => s.tagsGood | none => false) &&
+  (match serRoot t with | some r => r.tagsGood | none => true)
+
+theorem tagsOk_all : Ty.all.all tagsOk = true := by decide +kernel
+
+/-- **Every element name of the tables is a plain name** (re-decided on every run): ASCII letters, digits and
+`: _ - .` only — so nothing the serialiser writes as a tag can be mistaken by the tokeniser. -/
+theorem C13_tables_tags_good (t : Ty) :
+    goodName t.selfTag = true ∧ (∃ s, serSchema t = some s ∧ s.tagsGood = true) ∧
+    (∀ r, serRoot t = some r → r.tagsGood = true) := by
+  have hall := List.all_eq_true.mp tagsOk_all t (Ty.mem_all t)
+  unfold tagsOk at hall
+  simp only [Bool.and_eq_true] at hall
+  obtain ⟨⟨h1, h2⟩, h3⟩ := hall
+  refine ⟨h1, ?_, ?_⟩
+  · cases hs : serSchema t with
+    | none => simp [hs] at h2
+    | some s => exact ⟨s, rfl, by simpa [hs] using h2⟩
+  · intro r hr; simpa [hr] using h3
+
+/-- **Round trip through bytes, for every generated type**: the document `T::serialize` writes — as *bytes* — is
+tokenised and decoded by `T::deserialize` + `expect_eof` to the value that was written; under the type's own root
+(`serRoot`, when `impl Serialize` exists) and under the synthetic root the harness uses for nested-only types. -/
+theorem C13_bytes_roundtrip (X : Ext) (t : Ty) (hde : (deDef t).isSome = true) :
+    ∃ sd ss, deSchema t = some sd ∧ serSchema t = some ss ∧ ∀ v, Fits X sd v →
+      (∀ tag ns, serRoot t = some (.named tag ns) →
+        decodeDoc X (.named tag) sd (deEvents (tokenize (write (encodeDoc (.named tag ns) ss v)))) = .ok v) ∧
+      (∀ o i ns, serRoot t = some (.nested o i ns) →
+        decodeDoc X (.nested o i) sd (deEvents (tokenize (write (encodeDoc (.nested o i ns) ss v)))) = .ok v) ∧
+      decodeDoc X (.named t.selfTag) sd (deEvents (tokenize (write (encodeDoc (.named t.selfTag none) ss v)))) = .ok v := by
+  obtain ⟨sd, ss, h1, h2, hrt⟩ := C13_codec_roundtrip_types X t hde
+  obtain ⟨hself, ⟨ss', hss', hgood⟩, hroot⟩ := C13_tables_tags_good t
+  rw [h2] at hss'; cases hss'
+  refine ⟨sd, ss, h1, h2, ?_⟩
+  intro v hfit
+  obtain ⟨_, hnamed, hnested⟩ := hrt v hfit
+  refine ⟨?_, ?_, ?_⟩
+  · intro tag ns hr
+    rw [tokenize_write_doc _ ss v (hroot _ hr) hgood]
+    exact hnamed tag ns
+  · intro o i ns hr
+    rw [tokenize_write_doc _ ss v (hroot _ hr) hgood]
+    exact hnested o i ns
+  · rw [tokenize_write_doc (.named t.selfTag none) ss v (by simpa [SerRoot.tagsGood] using hself) hgood]
+    exact hnamed t.selfTag none
 
 /-! ## strictness -/
 
